@@ -17,10 +17,20 @@
 //	                directory.ReadServiceInfo, bus.ReadCapabilityMap over
 //	                boundary values of their types and the real meta-objects
 //
+// Every prefix reaches the decoder under test through the fragmenting reader
+// of internal/enum (end-of-stream modes data+EOF and EOF separate) AND as a
+// *bytes.Buffer (bytes.NewBuffer(prefix)): production code decodes payloads
+// from a *bytes.Buffer, and a decoder may take another path for that dynamic
+// type. A truncation that is accepted through the *bytes.Buffer only carries
+// the suffix /reader=bytes.Buffer in its fingerprint. The stub family hands
+// the prefix as a message payload; the generated code wraps it in a
+// *bytes.Buffer itself.
+//
 // The encodings come from the reference model (internal/refmodel).
 package main
 
 import (
+	"bytes"
 	"encoding/hex"
 	"fmt"
 	"io"
@@ -95,6 +105,58 @@ func outcome(f decodeFn, r io.Reader) (out string, detail string) {
 
 var modes = []enum.EOFMode{enum.EOFWithData, enum.EOFSeparate}
 
+// delivery says how a prefix is handed to the decoder: through the
+// fragmenting reader under an end-of-stream mode, or as a *bytes.Buffer.
+type delivery struct {
+	mode enum.EOFMode
+	buf  bool
+}
+
+var (
+	viaBuffer = delivery{buf: true}
+	// the deliveries in the order they are tried: the *bytes.Buffer comes
+	// last, so it is reached for a cut only when the fragmenting reader's
+	// modes before it were refused
+	deliveries   = []delivery{{mode: enum.EOFWithData}, {mode: enum.EOFSeparate}, viaBuffer}
+	deliveriesWB = []delivery{{mode: enum.EOFWithData}, viaBuffer}
+)
+
+const bufferSuffix = "/reader=bytes.Buffer"
+
+func (d delivery) String() string {
+	if d.buf {
+		return "bytes.Buffer"
+	}
+	return d.mode.String()
+}
+
+func (d delivery) readerType() string {
+	if d.buf {
+		return "*bytes.Buffer (bytes.NewBuffer(prefix))"
+	}
+	return "*enum.FragReader"
+}
+
+// reader builds a fresh reader over the prefix. The capacity of the slice
+// given to the buffer is clipped so that nothing can reach the bytes cut off.
+func (d delivery) reader(prefix []byte) io.Reader {
+	if d.buf {
+		return bytes.NewBuffer(prefix[:len(prefix):len(prefix)])
+	}
+	return enum.NewFragReader(prefix, nil, d.mode, 0)
+}
+
+// onlyBuffer says whether the prefix, not refused through a *bytes.Buffer, is
+// refused under both end-of-stream modes of the fragmenting reader.
+func onlyBuffer(f decodeFn, prefix []byte) bool {
+	for _, m := range modes {
+		if o, _ := outcome(f, enum.NewFragReader(prefix, nil, m, 0)); o != "" {
+			return false
+		}
+	}
+	return true
+}
+
 // typedDecoder is an entry point able to decode a datum of any type taken
 // alone: given the datum it returns the full encoding, the offset of the
 // datum's own bytes in it, and the decode function.
@@ -154,7 +216,7 @@ func wrongOnFull(dec typedDecoder, d *refmodel.Datum) bool {
 // the full encoding (it skips or misreads an element, so it never looks at
 // the missing bytes or is out of step with them) the datum is filed once
 // under "wrong-on-full", attributed to the atom kinds that cause it.
-func cutAll(dec typedDecoder, d *refmodel.Datum, fam *int64, mds []enum.EOFMode, g *enum.Guard, classes map[string]bool) {
+func cutAll(dec typedDecoder, d *refmodel.Datum, fam *int64, dls []delivery, g *enum.Guard, classes map[string]bool) {
 	enc, off, f, ok := dec.prep(d)
 	if !ok {
 		run.EngineError("%s: cannot prepare %s", dec.name, d.T)
@@ -165,16 +227,21 @@ func cutAll(dec typedDecoder, d *refmodel.Datum, fam *int64, mds []enum.EOFMode,
 	wrong := wrongOnFull(dec, d)
 	filedWrong := false
 	for k := 0; k < len(enc); k++ {
-		for _, mode := range mds {
-			k, mode := k, mode
+		for _, dl := range dls {
+			k, dl := k, dl
 			if g != nil {
 				g.Begin("cut/"+dec.name+"/hang", func() (string, interface{}) {
 					return fmt.Sprintf("%s over the first %d of the %d bytes %s (signature %q)", dec.name, k, len(enc), hexs(enc), d.T),
 						map[string]interface{}{"decoder": dec.name, "signature": d.T.String(), "encoding_hex": hexs(enc), "cut": k}
-				}, func() { outcome(f, enum.NewFragReader(enc[:k], nil, mode, 0)) })
+				}, func() { outcome(f, dl.reader(enc[:k])) })
 			}
-			rd.Reset(enc[:k], nil, mode, 0)
-			out, _ := outcome(f, rd)
+			var r io.Reader = rd
+			if dl.buf {
+				r = dl.reader(enc[:k])
+			} else {
+				rd.Reset(enc[:k], nil, dl.mode, 0)
+			}
+			out, _ := outcome(f, r)
 			if g != nil {
 				g.End()
 			}
@@ -193,12 +260,12 @@ func cutAll(dec typedDecoder, d *refmodel.Datum, fam *int64, mds []enum.EOFMode,
 				classes[part+"|"+out+"-decoder-wrong-on-full"] = true
 				if !filedWrong {
 					filedWrong = true
-					fileWrong(dec, d, k, mode)
+					fileWrong(dec, d, k, dl)
 				}
 				break
 			}
 			classes[part+"|"+out] = true
-			fileCut(dec, d, k, off, mode)
+			fileCut(dec, d, k, off, dl)
 			break
 		}
 	}
@@ -206,14 +273,14 @@ func cutAll(dec typedDecoder, d *refmodel.Datum, fam *int64, mds []enum.EOFMode,
 
 // fileWrong records a decoder that mishandles a full valid encoding and, as
 // a consequence, does not refuse some prefix of it.
-func fileWrong(dec typedDecoder, d *refmodel.Datum, k int, mode enum.EOFMode) {
+func fileWrong(dec typedDecoder, d *refmodel.Datum, k int, dl delivery) {
 	detail, min := enum.Blame(d, func(x *refmodel.Datum) bool { return wrongOnFull(dec, x) }, nil)
 	menc, _, mf, _ := dec.prep(min)
 	c, good := consumedOnFull(menc, mf)
 	// a prefix of the reduced case that is not refused, if any
 	cut, out := -1, ""
 	for kk := 0; kk < len(menc) && cut < 0; kk++ {
-		if o, _ := outcome(mf, enum.NewFragReader(menc[:kk], nil, mode, 0)); o != "" {
+		if o, _ := outcome(mf, dl.reader(menc[:kk])); o != "" {
 			cut, out = kk, o
 		}
 	}
@@ -222,10 +289,13 @@ func fileWrong(dec typedDecoder, d *refmodel.Datum, k int, mode enum.EOFMode) {
 		min, menc, mf, cut = d, nil, nil, k
 		menc, _, mf, _ = dec.prep(d)
 		c, good = consumedOnFull(menc, mf)
-		out, _ = outcome(mf, enum.NewFragReader(menc[:cut], nil, mode, 0))
+		out, _ = outcome(mf, dl.reader(menc[:cut]))
 		detail += "/unreduced"
 	}
 	fp := fmt.Sprintf("cut/%s/%s/wrong-on-full/%s", dec.name, out, detail)
+	if dl.buf && onlyBuffer(mf, menc[:cut]) {
+		fp += bufferSuffix
+	}
 	rank := fmt.Sprintf("%06d|%06d|%s", len(menc), cut, min.T)
 	if run.Fail(fp, rank) {
 		how := fmt.Sprintf("takes %d of the %d bytes", c, len(menc))
@@ -235,9 +305,9 @@ func fileWrong(dec typedDecoder, d *refmodel.Datum, k int, mode enum.EOFMode) {
 		cutc, outc := cut, out
 		run.Keep(fp, rank, fmt.Sprintf("%s %s full valid encoding %s (signature %q, value %s); as a consequence its %d-byte prefix is not refused (%s)", dec.name, how, hexs(menc), min.T, min, cut, out),
 			map[string]interface{}{"decoder": dec.name, "signature": min.T.String(), "value": min.String(), "encoding_hex": hexs(menc), "cut": cut,
-				"prefix_hex": hexs(menc[:cut]), "eof_mode": mode.String(), "consumed_on_full": c, "expected": "a non-nil error", "found_in": fmt.Sprintf("%s %s", d.T, d)},
+				"prefix_hex": hexs(menc[:cut]), "eof_mode": dl.String(), "reader": dl.readerType(), "consumed_on_full": c, "expected": "a non-nil error", "found_in": fmt.Sprintf("%s %s", d.T, d)},
 			func() bool {
-				res, _ := outcome(mf, enum.NewFragReader(menc[:cutc], nil, mode, 0))
+				res, _ := outcome(mf, dl.reader(menc[:cutc]))
 				return res == outc
 			})
 	}
@@ -245,13 +315,13 @@ func fileWrong(dec typedDecoder, d *refmodel.Datum, k int, mode enum.EOFMode) {
 
 // fileCut attributes and records one truncation that was not refused by a
 // decoder that handles the full encoding correctly.
-func fileCut(dec typedDecoder, d *refmodel.Datum, k, off int, mode enum.EOFMode) {
+func fileCut(dec typedDecoder, d *refmodel.Datum, k, off int, dl delivery) {
 	bad := func(x *refmodel.Datum, kk int) bool {
 		enc, o, f, ok := dec.prep(x)
 		if !ok || o+kk >= len(enc) || kk < 0 {
 			return false
 		}
-		res, _ := outcome(f, enum.NewFragReader(enc[:o+kk], nil, mode, 0))
+		res, _ := outcome(f, dl.reader(enc[:o+kk]))
 		return res != ""
 	}
 	var detail string
@@ -262,34 +332,42 @@ func fileCut(dec typedDecoder, d *refmodel.Datum, k, off int, mode enum.EOFMode)
 		detail, min, mk = enum.BlameCut(d, k-off, bad, nil)
 	}
 	if wrongOnFull(dec, min) {
-		fileWrong(dec, min, mk, mode)
+		fileWrong(dec, min, mk, dl)
 		return
 	}
 	menc, moff, mf, _ := dec.prep(min)
 	cut := moff + mk
-	out, det := outcome(mf, enum.NewFragReader(menc[:cut], nil, mode, 0))
+	out, det := outcome(mf, dl.reader(menc[:cut]))
 	if out == "" {
 		run.EngineError("reduction of %s %s cut at %d lost the failure", d.T, d, k)
 		return
 	}
-	// does the end-of-stream mode matter?
-	other := enum.EOFSeparate
-	if mode == enum.EOFSeparate {
-		other = enum.EOFWithData
-	}
+	// does the way the prefix is delivered matter? A *bytes.Buffer: is the
+	// prefix refused through the fragmenting reader (both modes)? The
+	// fragmenting reader: is it refused under the other end-of-stream mode?
 	suffix := ""
-	if res, _ := outcome(mf, enum.NewFragReader(menc[:cut], nil, other, 0)); res == "" {
-		suffix = "/" + mode.String()
+	if dl.buf {
+		if onlyBuffer(mf, menc[:cut]) {
+			suffix = bufferSuffix
+		}
+	} else {
+		other := enum.EOFSeparate
+		if dl.mode == enum.EOFSeparate {
+			other = enum.EOFWithData
+		}
+		if res, _ := outcome(mf, enum.NewFragReader(menc[:cut], nil, other, 0)); res == "" {
+			suffix = "/" + dl.mode.String()
+		}
 	}
 	fp := fmt.Sprintf("cut/%s/%s/%s%s", dec.name, out, detail, suffix)
 	rank := fmt.Sprintf("%06d|%06d|%s", len(menc), cut, min.T)
 	if run.Fail(fp, rank) {
-		run.Keep(fp, rank, fmt.Sprintf("%s over the first %d of the %d bytes %s (signature %q, value %s): %s", dec.name, cut, len(menc), hexs(menc), min.T, min, det),
+		run.Keep(fp, rank, fmt.Sprintf("%s over the first %d of the %d bytes %s (signature %q, value %s) delivered as %s: %s", dec.name, cut, len(menc), hexs(menc), min.T, min, dl, det),
 			map[string]interface{}{"decoder": dec.name, "signature": min.T.String(), "value": min.String(), "encoding_hex": hexs(menc), "cut": cut,
-				"prefix_hex": hexs(menc[:cut]), "eof_mode": mode.String(), "observed": det, "expected": "a non-nil error",
+				"prefix_hex": hexs(menc[:cut]), "eof_mode": dl.String(), "reader": dl.readerType(), "observed": det, "expected": "a non-nil error",
 				"found_in": fmt.Sprintf("%s %s cut at %d", d.T, d, k)},
 			func() bool {
-				res, _ := outcome(mf, enum.NewFragReader(menc[:cut], nil, mode, 0))
+				res, _ := outcome(mf, dl.reader(menc[:cut]))
 				return res == out
 			})
 	}
@@ -309,17 +387,19 @@ func familyMessages() {
 			}
 			enc := refmodel.EncodeMessage(refmodel.Header{ID: 0x01020304, Type: typ, Flags: typ & 1, Service: 0x05060708, Object: 0x090a0b0c, Action: 0x0d0e0f10}, p)
 			for k := 0; k < len(enc); k++ {
+				zone := "header"
+				if k >= 28 {
+					zone = "payload"
+				}
+				refusedByFrag := true
 				for _, mode := range modes {
 					for _, chunk := range []int{0, 1} {
 						rd.Reset(enc[:k], nil, mode, chunk)
 						out, det := outcome(f, rd)
 						run.Eval(fam, 1)
-						zone := "header"
-						if k >= 28 {
-							zone = "payload"
-						}
 						run.Distinct(fmt.Sprintf("message|%s|%s|%s", zone, mode, map[string]string{"": "refused", "accepted": "accepted", "panic": "panic"}[out]))
 						if out != "" {
+							refusedByFrag = false
 							k, mode, chunk := k, mode, chunk
 							run.Violation(fmt.Sprintf("cut/message/%s/%s", out, zone), fmt.Sprintf("%06d|%06d", len(enc), k),
 								fmt.Sprintf("net.Message.Read over the first %d of the %d bytes %s: %s", k, len(enc), hexs(enc), det),
@@ -328,10 +408,25 @@ func familyMessages() {
 						}
 					}
 				}
+				// the same prefix as a *bytes.Buffer
+				out, det := outcome(f, viaBuffer.reader(enc[:k]))
+				run.Eval(fam, 1)
+				run.Distinct(fmt.Sprintf("message|%s|%s|%s", zone, viaBuffer, map[string]string{"": "refused", "accepted": "accepted", "panic": "panic"}[out]))
+				if out != "" {
+					k := k
+					fp := fmt.Sprintf("cut/message/%s/%s", out, zone)
+					if refusedByFrag {
+						fp += bufferSuffix
+					}
+					run.Violation(fp, fmt.Sprintf("%06d|%06d", len(enc), k),
+						fmt.Sprintf("net.Message.Read over the first %d of the %d bytes %s delivered as a *bytes.Buffer: %s", k, len(enc), hexs(enc), det),
+						map[string]interface{}{"decoder": "net.Message.Read", "encoding_hex": hexs(enc), "cut": k, "eof_mode": viaBuffer.String(), "reader": viaBuffer.readerType()},
+						func() bool { o, _ := outcome(f, viaBuffer.reader(enc[:k])); return o == out })
+				}
 			}
 		}
 	}
-	run.Sample(12, map[string]interface{}{"family": "message", "cuts": "every k in [0, 28+len) for 8 types x payload 0,1,5,40"})
+	run.Sample(12, map[string]interface{}{"family": "message", "cuts": "every k in [0, 28+len) for 8 types x payload 0,1,5,40", "deliveries": "2 end-of-stream modes x {unfragmented, 1 byte per read}, *bytes.Buffer"})
 }
 
 // ------------------------------------------------------------- values
@@ -413,7 +508,7 @@ func familyValues(depth int, thorough bool) {
 		}
 	}
 	_ = firstDeep
-	mds := []enum.EOFMode{enum.EOFWithData}
+	dls := deliveriesWB
 	guards := make(chan *enum.Guard, run.Workers+1)
 	for i := 0; i <= run.Workers; i++ {
 		guards <- run.NewGuard()
@@ -423,7 +518,7 @@ func familyValues(depth int, thorough bool) {
 		defer func() { guards <- g }()
 		d := corpus[i]
 		classes := map[string]bool{}
-		cutAll(newvalueDec, d, fam, mds, g, classes)
+		cutAll(newvalueDec, d, fam, dls, g, classes)
 		local := map[string]int{}
 		shape := d.T.Shape()
 		if d.T.Kind == refmodel.Value {
@@ -461,18 +556,18 @@ func familyTyped(depth int, thorough bool) {
 		cr, cd := map[string]bool{}, map[string]bool{}
 		n := 0
 		vals := []*refmodel.Datum{enum.Dist(t), enum.Zero(t)}
-		mds := modes
+		dls := deliveries
 		switch {
 		case t.Depth() <= 1 || (thorough && t.Depth() <= 2):
 			vals = enum.Vals(t)
 		case t.Depth() >= 3:
 			vals = vals[:1]
-			mds = modes[:1]
+			dls = deliveriesWB
 		}
 		for _, d := range vals {
 			n++
-			cutAll(sigreaderDec, d, famR, mds, g, cr)
-			cutAll(reflectDec, d, famD, mds, g, cd)
+			cutAll(sigreaderDec, d, famR, dls, g, cr)
+			cutAll(reflectDec, d, famD, dls, g, cd)
 		}
 		local := map[string]int{}
 		for c := range cr {
@@ -552,9 +647,14 @@ func familyFixed() {
 		rd := enum.NewFragReader(nil, nil, 0, 0)
 		local := map[string]int{}
 		for k := 0; k < len(enc); k++ {
-			for _, mode := range modes {
-				rd.Reset(enc[:k], nil, mode, 0)
-				out, det := outcome(it.dec.f, rd)
+			for _, dl := range deliveries {
+				var r io.Reader = rd
+				if dl.buf {
+					r = dl.reader(enc[:k])
+				} else {
+					rd.Reset(enc[:k], nil, dl.mode, 0)
+				}
+				out, det := outcome(it.dec.f, r)
 				run.Eval(fam, 1)
 				sp, _ := refmodel.SpanAt(spans, k)
 				where := enum.FieldPath(it.d, sp.Path)
@@ -568,12 +668,18 @@ func familyFixed() {
 				}
 				local["fixed|"+it.dec.name+"|"+where+"|"+res]++
 				if out != "" {
-					k, mode := k, mode
-					run.Violation(fmt.Sprintf("cut/%s/%s/%s", it.dec.name, out, where), fmt.Sprintf("%06d|%06d", len(enc), k),
-						fmt.Sprintf("%s over the first %d of the %d bytes %s: %s", it.dec.name, k, len(enc), hexs(enc), det),
-						map[string]interface{}{"decoder": it.dec.name, "encoding_hex": hexs(enc), "cut": k, "eof_mode": mode.String(), "cut_in": where},
+					k, dl := k, dl
+					fp := fmt.Sprintf("cut/%s/%s/%s", it.dec.name, out, where)
+					if dl.buf {
+						// the *bytes.Buffer comes last: both modes of the
+						// fragmenting reader were refused for this cut
+						fp += bufferSuffix
+					}
+					run.Violation(fp, fmt.Sprintf("%06d|%06d", len(enc), k),
+						fmt.Sprintf("%s over the first %d of the %d bytes %s delivered as %s: %s", it.dec.name, k, len(enc), hexs(enc), dl, det),
+						map[string]interface{}{"decoder": it.dec.name, "encoding_hex": hexs(enc), "cut": k, "eof_mode": dl.String(), "reader": dl.readerType(), "cut_in": where},
 						func() bool {
-							o, _ := outcome(it.dec.f, enum.NewFragReader(enc[:k], nil, mode, 0))
+							o, _ := outcome(it.dec.f, dl.reader(enc[:k]))
 							return o == out
 						})
 					break
@@ -593,16 +699,19 @@ func main() {
 		depth = 3
 	}
 	finish := func() int {
-		rule := "corpus x every cut position 0 <= k < len(e) x end-of-stream modes {data+EOF, EOF separate} (newvalue and depth-3 typed data: data+EOF only; messages also 1 byte per read): " +
+		rule := "corpus x every cut position 0 <= k < len(e) x deliveries {fragmenting reader with data+EOF, fragmenting reader with EOF separate, *bytes.Buffer = bytes.NewBuffer(prefix), the reader type production code decodes payloads from} " +
+			"(newvalue and depth-3 typed data: data+EOF and *bytes.Buffer; messages: both end-of-stream modes unfragmented and 1 byte per read, and *bytes.Buffer; stubs: the prefix is the message payload, which the generated code wraps in a *bytes.Buffer itself). " +
+			"For one cut the deliveries are tried in that order and the first one that is not refused is filed; a truncation accepted through the *bytes.Buffer although refused through the fragmenting reader carries the suffix /reader=bytes.Buffer in its fingerprint. Corpus: " +
 			"messages (8 types x payload 0,1,5,40); dynamic values (13 constructors x Val, value lists of depth <= 2, opaque composites of Sig(2,2) without o plus 5 fixed signatures containing o: " +
 			"quick = all of Val for depth-1 signatures, distinguished+zero value for depth 2; thorough = all of Val); typed data of Sig(D,2) (D=2 quick, 3 thorough) through the signature reader and through the reflection decoder " +
 			"(quick: all of Val for depth 1, distinguished+zero value for depth 2; thorough: all of Val up to depth 2, the distinguished value for depth 3); " +
 			"MetaObject / ObjectReference / ServiceInfo / CapabilityMap boundary values and real meta-objects through their generated readers; argument tuples of every method of three generated stubs through Receive. " +
 			"evaluations counts decoder runs. A case class is (decoder, signature shape or decoder field path, element kind and part containing the first missing byte, outcome); " +
 			"distinct_nontrivial counts the distinct classes executed"
-		extra := map[string]interface{}{"depth": depth}
+		extra := map[string]interface{}{"depth": depth, "deliveries": []string{"FragReader/data+EOF", "FragReader/EOF-separate", "*bytes.Buffer"}}
 		assumptions := []string{
 			"encodings are produced by the reference model written from doc/about-qimessaging.md",
+			"a decoder may behave differently according to the dynamic type of its io.Reader; two reader types are used: the check's own fragmenting reader and *bytes.Buffer (what bus/object.go, bus/signal.go, bus/client.go, bus/proxy.go and the generated stubs pass); other reader types (*bytes.Reader, bufio.Reader, net.Conn) are not enumerated",
 			"no strict prefix of a valid encoding is itself a complete encoding (every decoder consumes exactly what it needs), so no cut position is excluded",
 			"generated argument decoders are reached through Receive of the bus/logger stubs and the generic Object actions; the ServiceDirectory stub needs an implementor with an unexported method and is not driven",
 			"a panic on a truncated input is filed as a violation with the clause 'panic' (it is not an error report)",
